@@ -339,6 +339,12 @@ fn gen_key(rng: &mut Rng, t: &LTable) -> (Ex, String) {
         return (Ex::Arith(op, Box::new(Ex::Col(c)), Box::new(Ex::Lit(Cell::Int(k)))), format!("expr{}", op));
     }
     if rng.chance(1, 50) { return (Ex::Lit(Cell::Int(rng.range(0, 9))), "const".into()); }
+    if rng.chance(1, 25) && int_cols.len() > 1 {
+        // a comparison as sort key (boolean 0/1, NULL when an operand is NULL)
+        let (a, b) = (*rng.pick(&int_cols), *rng.pick(&int_cols));
+        let op = *rng.pick(&["<", ">", "<=", "="]);
+        return (Ex::Cmp(op, Box::new(Ex::Col(a)), Box::new(if rng.chance(1, 2) { Ex::Col(b) } else { Ex::Lit(Cell::Int(rng.range(-3, 9))) })), "cmp".into());
+    }
     (Ex::Col(col), type_short(&t.types[col]))
 }
 
@@ -472,6 +478,24 @@ fn corpus(cases: &mut Cases) {
         let db = realise(&tm, &rm);
         run_case(cases, &db, &tm, &[1, 4], rm.batch_size, &qm, "corpus:middle-key-absent", "fixed");
     }
+    // open findings reported by the C02 / C12 owners (C05 anchors): DESC nullable string key on the top-n path,
+    // comparison over a nullable column as sort key
+    {
+        let ss = ["a", "a", "x", "x", "x", "x", "a", "", ""];
+        let tsd = LTable { n: 9, names: vec!["id".into(), "c1".into()], types: vec![ColType::Id, ColType::Str("lowcard")],
+            cols: vec![(0..9).map(Cell::Int).collect(), ss.iter().map(|s| if s.is_empty() { Cell::Null } else { Cell::Str(s.to_string()) }).collect()] };
+        let rsd = Realisation { bounds: vec![0, 9], flush: vec![false], ..r.clone() };
+        let qsd = Q { keys: vec![(col(1), true)], wher: None, limit: Some(3), offset: None, extra_sel: vec![] };
+        let db = realise(&tsd, &rsd);
+        run_case(cases, &db, &tsd, &[9], rsd.batch_size, &qsd, "corpus:topn-desc-nullable-string", "topn-desc-nullable-string");
+        let tc = LTable { n: 7, names: vec!["id".into(), "c1".into(), "c2".into()], types: vec![ColType::Id, ColType::Int("small"), ColType::Int("small")],
+            cols: vec![(0..7).map(Cell::Int).collect(), [1, 2, 3, 4, 9, 10, 11].iter().map(|i| Cell::Int(*i)).collect(),
+                       [Some(5), None, Some(7), Some(1), Some(9), Some(2), Some(4)].iter().map(|x| x.map(Cell::Int).unwrap_or(Cell::Null)).collect()] };
+        let rc = Realisation { bounds: vec![0, 7], flush: vec![false], ..r.clone() };
+        let qcmp = Q { keys: vec![(Ex::Cmp(">", Box::new(col(1)), Box::new(col(2))), false)], wher: None, limit: None, offset: None, extra_sel: vec![] };
+        let db = realise(&tc, &rc);
+        run_case(cases, &db, &tc, &[7], rc.batch_size, &qcmp, "corpus:orderby-nullable-cmp-key", "C05-orderby-nullable-expr-key");
+    }
     for (class, q) in &qc { let db = realise(&t, &r); run_case(cases, &db, &t, &[8], r.batch_size, q, class, "C05-order-by-constant"); }
 }
 
@@ -485,8 +509,49 @@ fn api_table(cases: &mut Cases, rng: &mut Rng, t: &LTable, r: &Realisation, per_
     }
 }
 
+/// Directed coverage of the comparator table: every key type x direction x nullability, on the top-n path, on the
+/// sort path and across a merge of two partitions (the random stream reaches some of these cells too rarely).
+fn directed_stream(cases: &mut Cases, rng: &mut Rng, thorough: bool) {
+    let kinds: Vec<(&str, ColType)> = vec![
+        ("u8", ColType::Int("u8")), ("u16off", ColType::Int("u16off")), ("i64", ColType::Int("i64")), ("small", ColType::Int("small")),
+        ("fdy", ColType::Float("dyadic")), ("fed", ColType::Float("edges")),
+        ("slow", ColType::Str("lowcard")), ("shigh", ColType::Str("highcard")),
+    ];
+    let reps = if thorough { 6 } else { 1 };
+    for _ in 0..reps {
+        for (kname, kt) in &kinds {
+            for nullable in [false, true] {
+                let n = *rng.pick(&[17usize, 24, 40]);
+                let cells: Vec<Cell> = match kt {
+                    ColType::Int(c) => gen_ints(rng, n, c).into_iter().map(Cell::Int).collect(),
+                    ColType::Float(c) => gen_floats(rng, n, c).into_iter().map(Cell::f).collect(),
+                    ColType::Str(c) => gen_strs(rng, n, c).into_iter().map(Cell::Str).collect(),
+                    ColType::Id => unreachable!(),
+                };
+                let cells = if nullable { let mask: Vec<bool> = (0..n).map(|i| i % 5 == 1 || rng.chance(1, 6)).collect(); apply_nulls(cells, &mask) } else { cells };
+                let t = LTable { n, names: vec!["id".into(), "c1".into()], types: vec![ColType::Id, kt.clone()], cols: vec![(0..n as i64).map(Cell::Int).collect(), cells] };
+                for two_parts in [false, true] {
+                    let cut = n / 2 + 1;
+                    let r = Realisation { bounds: if two_parts { vec![0, cut, n] } else { vec![0, n] }, flush: if two_parts { vec![true, true] } else { vec![true] },
+                        omit_null_cols: false, combine_factor: 999, mem_lz4: false, batch_size: *rng.pick(&[8usize, 1024]), threads: 2, pref: rng.next() };
+                    let parts = partition_lens(&r);
+                    let mut db = realise(&t, &r);
+                    for desc in [false, true] {
+                        let small = (*parts.iter().min().unwrap() as u64 / 2).saturating_sub(1).max(1);
+                        for (lim, off, strat) in [(Some(small.min(3)), None, "topn"), (Some(small), Some(0u64), "topn"), (Some(n as u64), None, "sort"), (None, Some(2u64), "sort")] {
+                            let q = Q { keys: vec![(Ex::Col(1), desc)], wher: None, limit: lim, offset: off, extra_sel: vec![] };
+                            let class = format!("api:directed:{}:{}:{}:{}:p{}", strat, kname, if nullable { "null" } else { "nn" }, dir_tok(desc), parts.len());
+                            if !run_case(cases, &db, &t, &parts, r.batch_size, &q, &class, &r.tag()) { db = realise(&t, &r); }
+                        }
+                    }
+                }
+            }
+        }
+    }
+}
+
 fn api_stream(cases: &mut Cases, rng: &mut Rng, thorough: bool) {
-    let (tables, per_table) = if thorough { (400, 30) } else { (45, 22) };
+    let (tables, per_table) = if thorough { (260, 30) } else { (36, 22) };
     for i in 0..tables {
         let n = *rng.pick(&[1usize, 2, 3, 5, 8, 9, 16, 17, 33, 40, 70]);
         let t = if i % 12 == 11 { nan_table(rng, n) } else { let extra = 1 + rng.below(3) as usize; gen_table(rng, n, extra, true, true) };
@@ -520,6 +585,8 @@ fn main() {
     let mut urng = rng.fork();
     unit_stream(&mut cases, &mut urng, args.thorough());
     if args.rest.iter().any(|a| a == "unit-only") { cases.finish(); return; }
+    let mut drng = rng.fork();
+    directed_stream(&mut cases, &mut drng, args.thorough());
     let mut arng = rng.fork();
     api_stream(&mut cases, &mut arng, args.thorough());
     cases.finish();
